@@ -723,11 +723,51 @@ def install(tap, run):
                               key="tts-align:" + problems[0].split(" ")[0])
             sides.append(rows_p)
         train, test = sides
+        # every input row is in exactly one of train / test: count the rows
+        kw = a["kwargs"] or {}
+        ts, tr = kw.get("test_size"), kw.get("train_size")
+        blocked = a["spacing"] is not None or a["shape"] is not None
+        run.count("tts_sizes_given:%s:%s" % ("blocked" if blocked else "plain",
+                                            "both" if ts is not None and tr is not None else "test_size" if ts is not None else "train_size" if tr is not None else "neither"))
+
+        def units(value, total, up):
+            """scikit-learn semantics of a size: an int is a count, a float a fraction (test: ceil, train: floor). -> (count, alternative at a tie)"""
+            if isinstance(value, (int, np.integer)) and not isinstance(value, bool):
+                return int(value), None
+            x = float(value) * total
+            near = abs(x - round(x)) < 1e-9 * max(total, 1)
+            main = int(np.ceil(x)) if up else int(np.floor(x))
+            return main, (int(round(x)) if near and int(round(x)) != main else None)
+
+        partial_by_request = False
+        if ts is not None and tr is not None and not blocked:
+            want_test, want_train = units(ts, ds.size, True)[0], units(tr, ds.size, False)[0]
+            partial_by_request = want_test + want_train < ds.size  # the caller asked for subsets that leave rows out
         run.evaluated("split_complementary")
         both = np.concatenate([train, test])
-        if np.unique(both).size != both.size or both.size != ds.size or train.size == 0 or test.size == 0:
-            run.violation("split_complementary", "train (%d rows) and test (%d rows) are not complementary subsets of the %d rows (%d rows on both sides)"
-                          % (train.size, test.size, ds.size, both.size - np.unique(both).size), dict(wit, train=np.sort(train), test=np.sort(test)), key="tts-complement")
+        lost = ds.size - np.unique(both).size
+        duplicated = both.size - np.unique(both).size
+        if partial_by_request:
+            run.count("unmonitored:sizes_leave_rows_out_by_request")
+        if duplicated or (lost and not partial_by_request) or train.size == 0 or test.size == 0:
+            run.violation("split_complementary", "train (%d rows) + test (%d rows) != the %d input rows: %d row(s) lost, %d row(s) on both sides "
+                          "(test_size=%r, train_size=%r)" % (train.size, test.size, ds.size, lost, duplicated, ts, tr),
+                          dict(wit, train=np.sort(train), test=np.sort(test)), key="tts-complement")
+        # sizes (plain mode): an explicit test_size / train_size fixes the number of rows on that side, the other side is the complement
+        if not blocked and (ts is not None or tr is not None) and not partial_by_request:
+            if ts is not None:
+                want, alt = units(ts, ds.size, True)
+                side, have = "test", test.size
+            else:
+                want, alt = units(tr, ds.size, False)
+                side, have = "train", train.size
+            if alt is not None:
+                run.count("either_way:size_fraction_at_a_rounding_tie")
+            run.evaluated("split_sizes")
+            if have != want and have != alt:
+                run.violation("split_sizes", "%s_size=%r of %d rows means %d %s rows (the other side is the complement); got train=%d, test=%d"
+                              % (side, ts if side == "test" else tr, ds.size, want, side, train.size, test.size),
+                              dict(wit, train=np.sort(train), test=np.sort(test)), key="tts-sizes:" + side)
         if a["spacing"] is not None or a["shape"] is not None:
             labels, ambiguous = R.block_labels(ds.coordinates[0], ds.coordinates[1], spacing=a["spacing"], shape=a["shape"])
             if ambiguous:
